@@ -13,6 +13,7 @@ import IsoMdl.Driver.Namespaces
 import IsoMdl.Driver.Honest
 import IsoMdl.Driver.Schema
 import IsoMdl.Driver.StateCodec
+import IsoMdl.Driver.Report
 /-
 Line-protocol driver of the executable model: one operation per input line, one observation per
 output line.  Unknown or malformed operations print `bad-op` (never a default value).
@@ -23,7 +24,7 @@ structure DState where
   world : Option IsoMdl.Session.World := none
   saved : List (String × IsoMdl.Session.World) := []
 
-def stateless : List (List String → Option String) := [ageOp, ivOp, c13Op, c06Op, eqOp, issuanceOp, discOp, cddlOp, wireOp, tag24Op, coseOp, readerAuthOp, deviceAuthReqOp, x509Op, partialOp, kdOp, nsOp, honestOp, schemaOp, stateCodecOp]
+def stateless : List (List String → Option String) := [ageOp, ivOp, c13Op, c06Op, eqOp, issuanceOp, discOp, cddlOp, wireOp, tag24Op, coseOp, readerAuthOp, deviceAuthReqOp, x509Op, partialOp, kdOp, nsOp, honestOp, schemaOp, stateCodecOp, reportOp]
 
 def step (st : DState) (line : String) : DState × String :=
   let toks := (line.trimAscii.toString.splitOn " ").filter (· ≠ "")
